@@ -104,7 +104,7 @@ Section Proofs.
                          verify key m sg = true /\ decode m = Some j /\ ks = canon key.
   Proof.
     intros w j ks H. destruct w as [|m s k]; cbn in H; [discriminate|].
-    destruct s as [| | |sg], k as [| |ks0]; try discriminate;
+    destruct s as [| | | |sg], k as [| | |ks0]; try discriminate;
       (destruct (parse_key ks0) as [key|] eqn:P; [|discriminate]); try discriminate.
     destruct (verify key m sg) eqn:V; [|discriminate].
     destruct (decode m) as [j0|] eqn:D; [|discriminate].
@@ -122,7 +122,7 @@ Section Proofs.
     destruct (unsign w) as [r|[j ks]] eqn:U.
     - inversion H; subst. left. split; [|reflexivity].
       destruct w as [|m s k]; cbn in U; [inversion U; reflexivity|].
-      destruct s as [| | |sg], k as [| |ks0]; try (inversion U; reflexivity);
+      destruct s as [| | | |sg], k as [| | |ks0]; try (inversion U; reflexivity);
         destruct (parse_key ks0) as [key|]; try (inversion U; reflexivity).
       destruct (verify key m sg); [|inversion U; reflexivity].
       destruct (decode m); inversion U; reflexivity.
